@@ -97,7 +97,8 @@ def run():
     rows_expr = "[" + "; ".join("(%s, %d, %d%%nat)" % (coq_codes(p).replace("%N", ""), b, n) for p, b, n in rows) + "]"
     iunits = info.get("interval_units") or ["microseconds", "milliseconds", "seconds", "minutes", "hours", "days", "weeks", "months", "years"]
     ifields = info.get("interval_fields") or [(u, u[:-1].upper(), u == "weeks") for u in reversed(iunits)]
-    istyles = {n_: (a_, b_) for n_, a_, b_ in (info.get("interval_styles") or [(d, "NoQuotes", "NoQuotes") for d in ALL_DIALECTS])}
+    istyles = {n_: (a_, b_) for n_, a_, b_ in (info.get("interval_styles") or [(d, *{"postgres": ("ValueAndUnitQuoted",) * 2, "glaredb": ("ValueAndUnitQuoted",) * 2, "snowflake": ("ValueAndUnitQuoted",) * 2,
+                                                                                      "redshift": ("ValueAndUnitQuoted", "ValueQuoted")}.get(d, ("NoQuotes", "NoQuotes"))) for d in ALL_DIALECTS])}
     units_expr = "[" + "; ".join(coq_codes(u) for u in iunits) + "]"
     fields_expr = "[" + "; ".join("(%s, (%s, %s))" % (coq_codes(u), coq_codes(f), "true" if w else "false") for u, f, w in ifields) + "]"
     STY = {"NoQuotes": "INoQuotes", "ValueAndUnitQuoted": "IValueAndUnitQuoted", "ValueQuoted": "IValueQuoted"}
